@@ -188,19 +188,16 @@ Inductive dres : Type :=
 | DOk (c : dconn) (trace : list Z)
 | DRaise (k : Z) (trace : list Z).
 
-(* ---------- the loop.  [bs] = data[buf.tell():], [total] = len(data) *)
-Fixpoint dgram_loop (fuel : nat) (patched : bool) (total : Z) (c : dconn) (bs : list Z) (orcs : list pkt_orc)
-         (tr : list Z) : dres :=
-  match bs with
-  | [] => DOk c tr
-  | _ :: _ =>
-  match fuel with
-  | O => DOk c tr                   (* unreachable with fuel > length bs: every packet has at least one byte *)
-  | S fuel =>
+(* ---------- one iteration of `while not buf.eof()`.  [bs] = data[buf.tell():] (non-empty), [total] = len(data) *)
+Inductive dstep : Type :=
+| SDone (r : dres)                                                            (* return / raise *)
+| SNextPkt (c : dconn) (next : list Z) (orcs : list pkt_orc) (tr : list Z).   (* continue / end of the loop body *)
+
+Definition dgram_step (patched : bool) (total : Z) (c : dconn) (bs : list Z) (orcs : list pkt_orc) (tr : list Z) : dstep :=
     match Header.pull_quic_header (d_hcl c) bs with
     | Err k =>
-        if (k =? Codec.E_READ) || (k =? Codec.E_VALUE) then DOk c (tr ++ [T_HEADER])      (* except ValueError: return *)
-        else DRaise k tr
+        if (k =? Codec.E_READ) || (k =? Codec.E_VALUE) then SDone (DOk c (tr ++ [T_HEADER]))      (* except ValueError: return *)
+        else SDone (DRaise k tr)
     | Ok (h, rest) =>
         let o := hd po0 orcs in
         let orcs := tl orcs in
@@ -209,14 +206,14 @@ Fixpoint dgram_loop (fuel : nat) (patched : bool) (total : Z) (c : dconn) (bs : 
         let vs := match Header.h_version h with None => true | Some v => zmem v (d_versions c) end in
         match recv_header_decide patched (c_is_client st) (q_first (d_state c)) ptype total
                                  (0 <=? po_dcid_seq o) vs with
-        | DExn k => DRaise k tr
-        | DDrop why => DOk c (tr ++ [T_DROP + why])
+        | DExn k => SDone (DRaise k tr)
+        | DDrop why => SDone (DOk c (tr ++ [T_DROP + why]))
         | DNegotiate =>
-            if ptype =? Header.PT_VERSION_NEGOTIATION then DOk (vn_packet c h) (tr ++ [T_NEGOTIATE])
+            if ptype =? Header.PT_VERSION_NEGOTIATION then SDone (DOk (vn_packet c h) (tr ++ [T_NEGOTIATE]))
             else
               (* packet_without_tag = buf.data_slice(start_off, buf.tell() - RETRY_INTEGRITY_TAG_SIZE) *)
-              if Zlen bs - Zlen rest - Header.RETRY_INTEGRITY_TAG_SIZE <? 0 then DRaise EXN_BufferReadError tr
-              else DOk (retry_packet c o) (tr ++ [T_NEGOTIATE])
+              if Zlen bs - Zlen rest - Header.RETRY_INTEGRITY_TAG_SIZE <? 0 then SDone (DRaise EXN_BufferReadError tr)
+              else SDone (DOk (retry_packet c o) (tr ++ [T_NEGOTIATE]))
         | DProcess creq =>
             (* Server initialization *)
             let c := if creq
@@ -224,33 +221,47 @@ Fixpoint dgram_loop (fuel : nat) (patched : bool) (total : Z) (c : dconn) (bs : 
                                                    (d_vn_done c) (d_retry_count c))
                      else c in
             (* self._cryptos_initial[header.version] / self._cryptos[epoch] / self._spaces[epoch] *)
-            if negb (d_init c) then DRaise EXN_KeyError tr else
+            if negb (d_init c) then SDone (DRaise EXN_KeyError tr) else
             (* buf.seek(start_off + header.packet_length) *)
-            if (Header.h_length h <? 0) || (Header.h_length h >? Zlen bs) then DRaise EXN_BufferReadError tr else
+            if (Header.h_length h <? 0) || (Header.h_length h >? Zlen bs) then SDone (DRaise EXN_BufferReadError tr) else
             let next := zdrop (Header.h_length h) bs in
-            if po_decrypt o =? 1 then dgram_loop fuel patched total c next orcs (tr ++ [T_KEY])
-            else if po_decrypt o =? 2 then dgram_loop fuel patched total c next orcs (tr ++ [T_DECRYPT])
+            if po_decrypt o =? 1 then SNextPkt c next orcs (tr ++ [T_KEY])
+            else if po_decrypt o =? 2 then SNextPkt c next orcs (tr ++ [T_DECRYPT])
             else
               let epoch := epoch_of ptype in
               (* reserved bits: close(); return -- before the state leaves FIRSTFLIGHT *)
-              if po_reserved o then DOk (do_close c EC_PROTOCOL_VIOLATION FT_PADDING) (tr ++ [T_PACKET])
+              if po_reserved o then SDone (DOk (do_close c EC_PROTOCOL_VIOLATION FT_PADDING) (tr ++ [T_PACKET]))
               else
               let c := if q_first (d_state c) then with_state c Q_CONNECTED else c in
               let st := set_ctx_cid (d_st c) (po_dcid_seq o) (po_tls o) in
               match packet_step patched st epoch creq false (po_payload o) with
-              | P2Exn nlog k => DRaise k (tr ++ [T_PACKET + nlog])
+              | P2Exn nlog k => SDone (DRaise k (tr ++ [T_PACKET + nlog]))
               | P2Ok st' nlog =>
                   let c := after_packet (with_st c st) st' in
                   let tr := tr ++ [T_PACKET + nlog] in
-                  if q_end (d_state c) || d_pending c then DOk c tr else
+                  if q_end (d_state c) || d_pending c then SDone (DOk c tr) else
                   (* handle migration *)
                   let c := if negb (c_is_client (d_st c)) && negb (po_dcid_seq o =? d_host_cid c) && (epoch =? EPOCH_ONE_RTT)
                            then with_host_cid (with_st c (change_connection_id (d_st c))) (po_dcid_seq o)
                            else c in
-                  dgram_loop fuel patched total c next orcs tr
+                  SNextPkt c next orcs tr
               end
         end
-    end
+    end.
+
+(* ---------- the loop; the fuel is never exhausted (ConnDgramP.dgram_fuel_any: every packet has at least one byte) *)
+Fixpoint dgram_loop (fuel : nat) (patched : bool) (total : Z) (c : dconn) (bs : list Z) (orcs : list pkt_orc)
+         (tr : list Z) : dres :=
+  match bs with
+  | [] => DOk c tr
+  | _ :: _ =>
+  match fuel with
+  | O => DOk c tr
+  | S fuel =>
+      match dgram_step patched total c bs orcs tr with
+      | SDone r => r
+      | SNextPkt c' next orcs' tr' => dgram_loop fuel patched total c' next orcs' tr'
+      end
   end
   end.
 
